@@ -288,6 +288,14 @@ def selection_case(ctx, rng, idx):
     rep = ctx.report
     names = rng.sample(['a', 'ab', 'a.b', 'b', 'res_1'], rng.randint(1, 4))
     sel = S.gen_sel(rng, names, allow_bad=False)
+    if idx % 3 == 1:
+        # systematically: a plain name as the selector, next to resources whose names are parts of it
+        names = rng.sample(['ab', 'a', 'b', 'res_1', 'res_1_b'], 5)[:rng.randint(3, 5)]
+        sel = rng.choice([n for n in names if len(n) > 1])
+    elif idx % 3 == 2:
+        # systematically: a position as the selector, the name found there being no pattern that matches itself
+        names = rng.sample(['q+', 'a(1)', 'a', 'b'], rng.randint(2, 4))
+        sel = rng.randrange(len(names)) - rng.choice([0, len(names)])
     tables = {n: [{'id': i, 'v': '%s%d' % (n, i)} for i in range(rng.choice([0, 1, 3]))] for n in names}
     kind = rng.choice(['tuple', 'package'])
     flags = [S.py_selects(sel, names, i, n) for i, n in enumerate(names)]
